@@ -318,19 +318,30 @@ def r4(ctx, chk):
         raise AnalysisError(rule, "get_kwargs does not return a local dict")
     kw = rets[-1]
     syms = {"D": {"%s['decades']" % kw, "%s.pop('decades')" % kw}, "Y": {"%s.get('years', 0)" % kw, "%s['years']" % kw}}
+    # every way the decades count is read from the dict: kw['decades'], kw.pop('decades'[, default]), kw.get('decades'[, default])
+    for n in iter_own_nodes(f.node):
+        if isinstance(n, ast.Call) and isinstance(n.func, ast.Attribute) and n.func.attr in ("pop", "get") and ast.unparse(n.func.value) == kw \
+                and n.args and isinstance(n.args[0], ast.Constant) and n.args[0].value == "decades":
+            syms["D"] = syms["D"] | {ast.unparse(n)}
     for n in iter_own_nodes(f.node):        # a local that holds the decades count stands for it
         if isinstance(n, ast.Assign) and len(n.targets) == 1 and isinstance(n.targets[0], ast.Name) and ast.unparse(n.value) in syms["D"]:
             syms["D"] = syms["D"] | {n.targets[0].id}
     fold = None
+    stores = 0
     for n in iter_own_nodes(f.node):
         if isinstance(n, ast.Assign) and ast.unparse(n.targets[0]) == "%s['years']" % kw:
             fold = _linear(n.value, syms)
             line = n.lineno
+            stores += 1
         elif isinstance(n, ast.AugAssign) and ast.unparse(n.target) == "%s['years']" % kw and isinstance(n.op, ast.Add):
             fold = _linear(n.value, syms)
             if fold is not None:
                 fold["Y"] = fold.get("Y", 0) + 1
             line = n.lineno
+            stores += 1
+    if stores and fold is None:
+        # the years entry IS written, from something this rule cannot read as a sum of decades and years: undecided, not a violation
+        raise AnalysisError(rule, "get_kwargs: the value stored under 'years' is not a form this rule can read")
     ok = fold is not None and fold.get("D") == 10 and fold.get("Y") == 1 and not fold.get(1)
     chk.ob(rule, "decades are folded as years = 10*decades + years", ok,
            "folding is %s" % fold,
